@@ -26,7 +26,7 @@ LEVEL = 'other'
 LEAN_MODULES = ['MpycV.Props.C05']
 LEAN_NAMESPACES = ['MpycV.C05']
 REQUIRED_THEOREMS = ['mul_value', 'norm_inv_mul', 'norm_inv_addNorm', 'add_renorm_core', 'normFactor_eval', 'neg_exact',
-                     'cmp_sign', 'io_exact', 'io_bound', 'output_zero_exponent']
+                     'cmp_sign', 'io_exact', 'io_bound', 'output_zero_exponent', 'recip_normal', 'recip_clamp_exact', 'select_components']
 RULE = ('case = (party configuration, type (s,e) in {(11,5),(24,8),(53,11)}, operation in {+,-,*,/ (secure and public float '
         'operand), <,<=,==,>=,>,!=, neg, abs, input/output}, operands): random significands (full double precision and s-bit), '
         'exponents within a quarter of the exponent range; adversarial: cancellation x + (-x(1+delta)), equal exponents, powers of '
@@ -418,6 +418,7 @@ def run(ctx):
     L.run_corr(ctx, items, 'secure float pair operations (sectypes.SecureFloat vs MpycV.Flt)')
     subset_outputs(ctx)
     placeholders(ctx)
+    reciprocals(ctx)
 
 
 SUBSET_LISTS = [[0.0, 3.5, -1250.0, 2.0 ** -7], [3.5, 0.0, 0.0], [0.0], [0.0, 0.0, 1.0], [-2.75, 1.5, 0.0, 96.0], [1024.0]]
@@ -500,6 +501,55 @@ def placeholder_case(m, t, no_prss, se, a, b, x, op, waiter, seed):
     return None
 
 
+def reciprocal_case(m, t, no_prss, se, xs, seed):
+    """1/x and x.reciprocal(): the significand of the result is NORMALISED (theorem recip_normal) and the value is within
+    16u of 1/x; returns a message or None"""
+    async def program(mpc):
+        secflt = mpc.SecFlt(s=se[0], e=se[1])
+        out = []
+        for x in xs:
+            a = secflt(x)
+            for r in (1 / a, a.reciprocal()):
+                s_raw = await mpc.output(r.share[0], raw=True)
+                out.append((int(s_raw), int(await mpc.output(r.share[1]))))
+        return out
+    try:
+        res = SimNet(m, t, no_prss=no_prss, seed=seed).run(program)
+    except Exception as exc:  # noqa: BLE001
+        return f'{type(exc).__name__}: {str(exc)[:300]}'
+    f = se[0] - 1
+    u = 2.0 ** -f
+    for i, (s_raw, e_) in enumerate(res[0]):
+        x = xs[i // 2]
+        if not (2 ** (f - 1) <= abs(s_raw) <= 2 ** f):
+            return f'reciprocal of {x}: significand {s_raw}/2^{f} is not normalised (1/2 <= |s| <= 1)'
+        val = s_raw / 2 ** f * 2.0 ** e_
+        if abs(val - 1 / x) > 16 * u * abs(1 / x):
+            return f'reciprocal of {x}: {val}, exact {1 / x} (more than 16u off)'
+    if any(r != res[0] for r in res):
+        return 'parties disagree'
+    return None
+
+
+def reciprocals(ctx):
+    rng = ctx.subrng('reciprocal')
+    for se in TYPES[:2]:
+        f = se[0] - 1
+        edge = [2.0 ** k for k in (-3, 0, 1, 5)] + [-(2.0 ** k) for k in (-2, 0, 3)]           # significand exactly 1/2 ... 1
+        edge += [2.0 ** k * (1 + 2.0 ** -(f - 1)) for k in (0, 2)] + [2.0 ** k * (1 - 2.0 ** -f) for k in (1, -1)]
+        xs = edge + [rng.choice([-1, 1]) * rng.uniform(0.01, 100.0) for _ in range(4)]
+        for (m, t, no_prss) in ((1, 0, False), (3, 1, rng.random() < 0.5)):
+            for _ in range(ctx.scale(3, 12) if m == 1 else ctx.scale(1, 3)):
+                seed = rng.randrange(10**9)
+                msg = reciprocal_case(m, t, no_prss, se, xs, seed)
+                ctx.case(('reciprocal', m, t, no_prss, tuple(se), seed), nontrivial=True)
+                ctx.count('op:reciprocal-normalised', 2 * len(xs))
+                if msg:
+                    ctx.violation('C05: ' + msg, {'kind': 'reciprocal', 'm': m, 't': t, 'no_prss': no_prss, 'se': list(se), 'xs': xs,
+                                                  'seed': seed})
+                    return
+
+
 def placeholders(ctx):
     rng = ctx.subrng('placeholder')
     for (m, t) in ((3, 1), (2, 0)) + (((4, 1), (5, 2)) if ctx.thorough else ()):
@@ -556,6 +606,9 @@ def handle(ctx, r, items=None):
 
 
 def replay(ctx, data):
+    if data.get('kind') == 'reciprocal':
+        msg = reciprocal_case(data['m'], data['t'], data['no_prss'], tuple(data['se']), data['xs'], data['seed'])
+        return msg is None, msg or 'ok'
     if data.get('kind') == 'placeholder':
         msg = placeholder_case(data['m'], data['t'], data['no_prss'], tuple(data['se']), data['a'], data['b'], data['x'],
                                data['op'], data['waiter'], data['seed'])
